@@ -46,7 +46,9 @@ AddSimplex(S, m, castable, id, a, ord, ford) ==
 
 (* ---- add_simplices_from ------------------------------------------------------------ *)
 \* fold state: [st, res, warn, q] with q the set of queued faces.  maxOrder = None: no cap.
-SimplexStep(T, it, fmt, maxOrder, kw, ord) ==
+\* burn: whether a simplex that max_order cuts down to its faces uses up an automatic id (the library does;
+\* only the freshness of the ids that are handed out is promised)
+SimplexStep(T, it, fmt, maxOrder, kw, ord, burn) ==
   LET M  == Range(it.m)
       S  == T.st
       k  == Cardinality(M)
@@ -60,20 +62,23 @@ SimplexStep(T, it, fmt, maxOrder, kw, ord) ==
        LET S0 == IF auto THEN [S EXCEPT !.uid = @ + 1] ELSE S
            e  == IF auto THEN S.uid ELSE it.id
        IN IF maxOrder # None /\ k > maxOrder + 1
-            THEN [T EXCEPT !.st = S0, !.q = @ \cup SubsOf(M, 2, maxOrder + 1)]
+            THEN [T EXCEPT !.st = IF burn THEN S0 ELSE S, !.q = @ \cup SubsOf(M, 2, maxOrder + 1)]
           ELSE IF ~auto /\ e \in EdgeSet(S) THEN [T EXCEPT !.warn = @ + 1]
           ELSE [T EXCEPT !.st = PutSimplex(S0, e, M, a, ord), !.q = @ \cup SubsOf(M, 2, k - 1)]
 
 \* a raising call leaves a prefix of complete items (with their faces) applied
-AddSimplicesFrom(S, fmt, items, maxOrder, kw, ord, ford) ==
+AddSimplicesFromB(S, fmt, items, maxOrder, kw, ord, ford, burn) ==
   LET run == FoldL(LAMBDA acc, it :
                      IF acc[Len(acc)].res # "ok" THEN acc
-                     ELSE Append(acc, SimplexStep(acc[Len(acc)], it, fmt, maxOrder, kw, ord)),
+                     ELSE Append(acc, SimplexStep(acc[Len(acc)], it, fmt, maxOrder, kw, ord, burn)),
                    << [st |-> S, res |-> "ok", warn |-> 0, q |-> {}] >>, items)
       fin(T) == [st |-> AddFaces(T.st, T.q, ford, ord), res |-> "ok", warn |-> T.warn]
       last == run[Len(run)]
   IN IF last.res = "ok" THEN {fin(last)}
      ELSE {[fin(run[j]) EXCEPT !.res = last.res] : j \in 1..(Len(run) - 1)}
+AddSimplicesFrom(S, fmt, items, maxOrder, kw, ord, ford) ==
+  AddSimplicesFromB(S, fmt, items, maxOrder, kw, ord, ford, TRUE)
+    \cup (IF maxOrder = None THEN {} ELSE AddSimplicesFromB(S, fmt, items, maxOrder, kw, ord, ford, FALSE))
 
 \* None members in a bulk call: invalid members are outside C03's quantifier.  Only the
 \* clean case is specified (first item, automatic id, not truncated): the call is rejected
